@@ -562,7 +562,8 @@ func regressionMutants() []mutCase {
 		// /a%0a% style keys: fixed in 9f821d33 (uri.NormalizeEscapedPath), must stay clean
 		add(pb, true, "escape", "%", "%0a%", "%zz", "%0a%zz", "%e4%b8", "pre:%", "pre:%0a%", "%%", "%2", "%2f%", "%2F", "%25", "%e4%b8%96")
 		add(pa, true, "escape", "%0a%", "%", "pre:%0a%")
-		add(pet, false, "cycle", "replace-self", "allOf-self", "oneOf-self", "anyOf-self", "replace-root", "items-allOf-self")
+		add(pet, false, "cycle", "replace-self", "allOf-self", "oneOf-self", "anyOf-self", "replace-root", "items-allOf-self",
+			"oneOf-in-oneOf-self", "anyOf-in-oneOf-self", "oneOf-in-anyOf-self", "allOf-in-oneOf-self", "oneOf-in-allOf-self")
 		add(refHolder, false, "cycle", "replace-root", "allOf-self")
 		add(ref, false, "cycle", "self", "parent", "grandparent", "root")
 		add(ref, false, "dangling", "missing", "suffix", "empty-frag", "no-hash", "bad-escape", "tilde", "slash-end")
